@@ -123,12 +123,18 @@ Lemma compile_ok ver ty E b n b' r :
   exists E' a, r = Ok a /\ minv ver ty E' b' /\
     b_stack b' = b_stack b /\ b_last b' = b_last b /\ b_len b' = b_len b /\
     ((E' = E /\ ((a = 0 /\ sentinel n) \/ exists s, In (a, s) E /\ bn_of s = n)) \/
-     (exists s, E' = (a, s) :: E /\ bn_of s = n)).
+     (exists s, E' = (a, s) :: E /\ bn_of s = n)) /\
+    strip E' = BuilderBasics.compile_log b n ++ strip E.
 Proof.
-  intros Hver (HE & HB & HR) Hn Hsize Hc. unfold compile in Hc.
+  intros Hver (HE & HB & HR) Hn Hsize Hc. pose proof Hc as Hc0. unfold compile in Hc.
+  assert (Hlog : BuilderBasics.compile_log b n =
+            if n_final n && (match n_trans n with [] => true | _ => false end) && (n_fout n =? 0) then []
+            else match snd (reg_entry (b_reg b) n) with Found _ => [] | _ =>
+                   match snd (compile b n) with Ok a => [(a, n)] | _ => [] end end) by reflexivity.
   destruct (n_final n && (match n_trans n with [] => true | _ => false end) && (n_fout n =? 0)) eqn:Hs.
   { apply sentinel_test in Hs. inversion Hc; subst. exists E, 0.
-    split; [reflexivity|]. split; [unfold minv; auto|]. do 3 (split; [reflexivity|]). left. auto. }
+    split; [reflexivity|]. split; [unfold minv; auto|]. do 3 (split; [reflexivity|]).
+    split; [left; auto|]. rewrite Hlog. reflexivity. }
   assert (Hns : ~ sentinel n) by (intro X; apply sentinel_test in X; congruence).
   destruct (reg_entry (b_reg b) n) as [reg0 e] eqn:He.
   pose proof (reg_entry_ok E _ _ _ _ HR He) as Hre.
@@ -138,7 +144,8 @@ Proof.
     inversion Hc; subst; clear Hc. destruct Hre as (Hr' & s & Hin & Hs').
     exists E, a. split; [reflexivity|]. split.
     { split; [exact HE|]. split; [constructor; cbn [b_version b_count b_out b_last_addr body]; auto|cbn [b_reg]; exact Hr']. }
-    do 3 (split; [reflexivity|]). left. split; auto. right. eauto.
+    do 3 (split; [reflexivity|]). split; [left; split; auto; right; eauto|].
+    rewrite Hlog. reflexivity.
   - (* NotFound: the node is written *)
     pose proof (top_addr_bound _ HE) as Htb.
     assert (Hbn : bnode_ok (b_last_addr b) (top_addr E + 1) n).
@@ -165,7 +172,8 @@ Proof.
            cbn [firstn]. rewrite app_nil_r. exact Bhdr.
         -- change (tiles_inv ver ((top_addr E + sz, s) :: E) (body (b_write b cs))). rewrite body_write. exact Ht'.
       * cbn [b_reg]. apply Hre. destruct n; reflexivity.
-    + repeat split; auto. right. exists s. split; auto. destruct n; reflexivity.
+    + do 3 (split; [reflexivity|]). split; [right; exists s; split; auto; destruct n; reflexivity|].
+      rewrite Hlog, Hc0. cbn [snd strip map fst app b_write b_count]. f_equal. f_equal; [rewrite chunks_len_concat; fold sz; lia|destruct n; reflexivity].
   - (* Rejected: the node is written, the registry is untouched *)
     pose proof (top_addr_bound _ HE) as Htb.
     assert (Hbn : bnode_ok (b_last_addr b) (top_addr E + 1) n).
@@ -192,7 +200,8 @@ Proof.
            cbn [firstn]. rewrite app_nil_r. exact Bhdr.
         -- change (tiles_inv ver ((top_addr E + sz, s) :: E) (body (b_write b cs))). rewrite body_write. exact Ht'.
       * cbn [b_reg]. subst reg0. apply reg_ok_cons. exact HR.
-    + repeat split; auto. right. exists s. split; auto. destruct n; reflexivity.
+    + do 3 (split; [reflexivity|]). split; [right; exists s; split; auto; destruct n; reflexivity|].
+      rewrite Hlog, Hc0. cbn [snd strip map fst app b_write b_count]. f_equal. f_equal; [rewrite chunks_len_concat; fold sz; lia|destruct n; reflexivity].
 Qed.
 End Compile.
 
